@@ -163,7 +163,7 @@ def str_worker(args):
             return
         chk.report_failure('%s: stray memory access for str code points %r: %s' % (label, data, what_), {}, path, ok)
     ex.on_oob = on_oob
-    res = ex.explore(h, max_paths=20000, time_limit=1500)
+    res = ex.explore(h, max_paths=400000, time_limit=2700)
     hutil.finish_explore(chk, ex, res, label)
     chk.functions = irgen.func_info(mod, sorted(ex.called))
     return hutil.export(chk)
